@@ -1793,3 +1793,41 @@ Example ex_after_flags :
 Proof.
   split; [exact (proj1 (proj2 (proj2 ex_cluster_hyps)))|]. split; vm_compute; reflexivity.
 Qed.
+
+(** the unconditional variant, for rewritings that are equalities at every loop state of the class
+    (clusters, aliases, prefixes, [-o=v] vs [-ov]) *)
+Theorem flags_prefix_congr_eq c X Y : dash_not_sub c ->
+  forall chs ls st, Forall (flag_ch c) chs ->
+  l_trailing ls = false -> l_pst ls = PSValuesDone -> no_hyphen_pos c (l_pos ls) -> fs_skip st = 0 ->
+  (forall ls' st', l_trailing ls' = false -> l_pst ls' = PSValuesDone -> l_pos ls' = l_pos ls -> fs_skip st' = 0 ->
+     parse_loop c X ls' st' = parse_loop c Y ls' st') ->
+  parse_loop c (map (fun ch => [45; ch]) chs ++ X) ls st = parse_loop c (map (fun ch => [45; ch]) chs ++ Y) ls st.
+Proof.
+  intros DS. induction chs as [|ch chs IH]; intros ls st FA T PV NH FS H.
+  - cbn [map app]. apply H; try assumption. reflexivity.
+  - inversion FA as [|? ? [LT [NE [a [G TV]]]] FA']; subst. cbn [map app].
+    rewrite !(single_flag_step c ch a _ ls st DS T PV NH LT NE G TV FS).
+    destruct (react c (Some IShort) SCmdLine a [] None st) as [[s1 p1]|e s|n] eqn:R; cbn [rbind fst]; try reflexivity.
+    apply (IH _ s1 FA'); try reflexivity; [exact NH|rewrite (react_fs _ _ _ _ _ _ _ _ _ R); exact FS|].
+    intros ls' st' T' PV' PO' FS'. apply H; try assumption.
+Qed.
+
+(** e.g. a long alias / inferred prefix behind any prefix of separate flags *)
+Theorem after_flags_long_respell c chs l1 l2 v a tokA tokB rest ls st :
+  dash_not_sub c -> Forall (flag_ch c) chs ->
+  l_trailing ls = false -> l_pst ls = PSValuesDone -> no_hyphen_pos c (l_pos ls) -> fs_skip st = 0 ->
+  is_escape tokA = false -> is_escape tokB = false ->
+  possible_subcommand c tokA false = None -> possible_subcommand c tokB false = None ->
+  to_long tokA = Some (l1, true, v) -> to_long tokB = Some (l2, true, v) ->
+  (is_nil l1 && negb (is_some v)) = false -> (is_nil l2 && negb (is_some v)) = false ->
+  lookup_long c l1 = Some a -> lookup_long c l2 = Some a ->
+  parse_loop c (map (fun ch => [45; ch]) chs ++ tokA :: rest) ls st =
+  parse_loop c (map (fun ch => [45; ch]) chs ++ tokB :: rest) ls st.
+Proof.
+  intros DS FA T PV NH FS EA EB PA PB TA TB NA NB LA LB.
+  apply (flags_prefix_congr_eq c _ _ DS chs ls st FA T PV NH FS).
+  intros ls' st' T' PV' PO' FS'.
+  assert (FS_ : forall tok, is_escape tok = false -> possible_subcommand c tok false = None -> flag_site c ls' tok).
+  { intros tok E P. split; [exact T'|]. split; [rewrite PV'; exact I|]. split; [apply possible_subcommand_vaf; exact P|exact E]. }
+  apply (long_respell c l1 l2 v a tokA tokB rest ls' st' (FS_ _ EA PA) (FS_ _ EB PB) TA TB NA NB LA LB).
+Qed.
